@@ -168,7 +168,7 @@ Qed.
 Print Assumptions C33_single_use_same_block_refuted.
 
 (* The mempool keys a withdrawal by every hash its save processor records
-   (V2 since /repo 8d934843). *)
+   (V2 since /repo f6815107). *)
 Theorem C33_mempool_keys_cover_recorded : forall t,
   known_pver (pver t) = true -> incl (recorded_hashes t) (mempool_keys t).
 Proof. exact mempool_keys_cover_recorded. Qed.
